@@ -2,7 +2,7 @@
 import random, copy
 from common import S, Sempty, Stext, Q, M, sc_py
 
-STR_KEYS = ['a', 'b', 'c', 'k', 'x', '_u']
+STR_KEYS = ['a', 'b', 'c', 'k', 'x', '_u', 'a', 'b', 'c', 'k', 'x', 'stages', 'x.y', 'my-key']
 INT_KEYS = [0, 1, 2, -1, 3]
 SCALARS = [0, 1, 2, 7, -3, 'p', 'q', '', 'hello world', True, False, None, 1.5, 0.0]
 
